@@ -159,7 +159,7 @@ func describeRound(v ssa.Value) string {
 		return ph.Comment
 	}
 	if fv, _ := fieldOf(v); fv != nil {
-		return "." + fv.Name()
+		return "." + refName(fv)
 	}
 	if pv, ok := v.(*ssa.Parameter); ok {
 		return pv.Name()
@@ -383,7 +383,7 @@ func c01see(p *Prog, r *Report) {
 			if !ok || innermostLoop(loops, b) == nil {
 				continue
 			}
-			if fv, _ := fieldOf(mu.Map); fv == nil || fv.Name() != "lastAncestors" {
+			if fv, _ := fieldOf(mu.Map); fv == nil || refName(fv) != "lastAncestors" {
 				continue
 			}
 			n++
@@ -393,7 +393,7 @@ func c01see(p *Prog, r *Report) {
 					return false
 				}
 				fv, _ := fieldOf(lk.X)
-				return fv != nil && fv.Name() == "lastAncestors"
+				return fv != nil && refName(fv) == "lastAncestors"
 			}
 			qLarger := func(l Lit) bool {
 				a, bb, strict, ok := cmpLit(l) // a > bb
@@ -443,6 +443,14 @@ func c01fame(p *Prog, r *Report) {
 	for i, c := range cs {
 		qUndecided := func(l Lit) bool { return resultLit(l, named(HG+".RoundInfo.IsDecided"), 0, false, nil) }
 		qNormal := func(l Lit) bool {
+			// mod > 0, or the equivalent mod != 0 (the remainder of a non-negative difference)
+			if bo, isB := l.V.(*ssa.BinOp); isB && !l.Nil && (bo.Op == token.EQL || bo.Op == token.NEQ) {
+				for _, pair := range [][2]ssa.Value{{bo.X, bo.Y}, {bo.Y, bo.X}} {
+					if k, okc := intConst(pair[1]); okc && k == 0 && flowsFromCall(pair[0], named("math.Mod"), 0) {
+						return (bo.Op == token.NEQ) == l.Pos
+					}
+				}
+			}
 			a, b, strict, ok := cmpLit(l)
 			if !ok || !strict {
 				return false
@@ -737,11 +745,11 @@ func fieldsRead(fn *ssa.Function) []string {
 			switch x := in.(type) {
 			case *ssa.FieldAddr:
 				if fv := fieldVar(x.X.Type(), x.Field); fv != nil {
-					set[fv.Name()] = true
+					set[refName(fv)] = true
 				}
 			case *ssa.Field:
 				if fv := fieldVar(x.X.Type(), x.Field); fv != nil {
-					set[fv.Name()] = true
+					set[refName(fv)] = true
 				}
 			}
 		}
@@ -810,7 +818,9 @@ func c01order(p *Prog, r *Report) {
 			if nn := namedOf(mi.X.Type()); nn == nil || nn.Obj().Name() != "SortedFrameEvents" {
 				continue
 			}
-			if dominates(c, w.Instr) && (sameOrigin(unwrap(mi.X), w.Val) || sameRoot(mi.X, w.Val) || unwrap(unwrap(mi.X)) == unwrap(w.Val)) {
+			sorted := unwrap(mi.X)
+			if dominates(c, w.Instr) && (sameOrigin(sorted, w.Val) || sameRoot(mi.X, w.Val) || unwrap(sorted) == unwrap(w.Val) ||
+				flowsFromLocal(w.Val, func(x ssa.Value) bool { return x == sorted || x == unwrap(sorted) || sameOrigin(x, sorted) || sameRoot(x, mi.X) })) {
 				ok = true
 			}
 		}
